@@ -72,7 +72,11 @@ def build_demo(wt, demo, exe):
         for n in names:
             if n.startswith("libphysica") and n.endswith(".a"):
                 lib = os.path.join(d, n)
-    rc, out = sh(["g++", "-std=c++14", "-O1", "-w", "-I" + wt + "/include", "-I" + wt + "/_build/generated", demo, lib, "-lconfig++", "-o", exe])
+    # SEED_DEMO_CXX / SEED_DEMO_EXTRA: a change that only manifests in another compiler's build (C20 quantifies over
+    # g++ and clang++ builds) is demonstrated by compiling the named extra sources of the worktree with that compiler
+    cxx = os.environ.get("SEED_DEMO_CXX", "g++")
+    extra = [os.path.join(wt, x) for x in os.environ.get("SEED_DEMO_EXTRA", "").split()]
+    rc, out = sh([cxx, "-std=c++14", "-O1" if cxx == "g++" else "-O0", "-w", "-I" + wt + "/include", "-I" + wt + "/_build/generated", demo] + extra + [lib, "-lconfig++", "-o", exe])
     return rc == 0, out[-2000:]
 
 
